@@ -13,8 +13,44 @@ import (
 	"testing"
 )
 
-// characters of the TLA+ specs (1-based)
-var vChars = []string{"", " ", "\t", "\"", "'", "\\", "-", "$", "a", "é"}
+// characters of the TLA+ specs (1-based).  9 is the class "multi-byte letter", 10 the class "non-ASCII Unicode
+// space": a replay sets them to each member in turn (vWithMulti / vWithSpace)
+var vChars = []string{"", " ", "\t", "\"", "'", "\\", "-", "$", "a", "é", "\u00a0"}
+
+// e-acute C3 A9, a-grave C3 A0, A-ring C3 85, ellipsis E2 80 A6: the encodings contain the bytes A0 and 85
+var vMultiLetters = []string{"é", "à", "Å", "…"}
+
+// inside quotes any rune is an ordinary character, the Unicode spaces included
+var vMultiQuoted = []string{"é", "à", "Å", "…", "\u00a0", "\u0085"}
+
+var vUniSpaces = []string{"\u00a0", "\u0085"}
+
+func vHas(toks []int, k int) bool {
+	for _, x := range toks {
+		if x == k {
+			return true
+		}
+	}
+	return false
+}
+
+// vInstances calls fn once per member of the classes that occur in toks (once if none occurs)
+func vInstances(toks []int, multi []string, fn func()) {
+	ms, us := []string{vChars[9]}, []string{vChars[10]}
+	if vHas(toks, 9) {
+		ms = multi
+	}
+	if vHas(toks, 10) {
+		us = vUniSpaces
+	}
+	for _, m := range ms {
+		for _, u := range us {
+			vChars[9], vChars[10] = m, u
+			fn()
+		}
+	}
+	vChars[9], vChars[10] = "é", "\u00a0"
+}
 
 func vStr(toks []int) string {
 	var b strings.Builder
